@@ -3,7 +3,7 @@
   ONLY property theorems here (helper lemmas: `Scico/Proofs/Driver*.lean`; specifications:
   `Scico/Proofs/DriverSpec.lean`).
 -/
-import Scico.Proofs.DriverSpec
+import Scico.Proofs.DriverTimer
 
 namespace Scico.Props.C15
 open Scico.Driver Scico.Driver.Spec
@@ -25,5 +25,87 @@ theorem C15_working_vars_finite_iff {α : Type} (fin : α → Bool) (vars : List
     cases v with
     | plain xs => simpa [Var.any] using hb
     | block bs => simpa [Var.any] using hb
+
+/-! ## Interval timer -/
+
+/-- **The interval timer reports the times of an ideal stop-watch.**  For every constructor
+    configuration, every sequence of `start/stop/reset` calls with `None`, single-label, `all` or
+    list arguments (a `KeyError` in the middle of a list leaves the earlier labels updated and the
+    program carries on), every non-decreasing integer clock and every later query time, the value
+    `Timer.elapsed(label, total)` returns — or the `KeyError` it raises — is what the
+    history-based stop-watch `specElapsed` prescribes (`DriverSpec.lean`: number of ticks since the
+    label's last reset during which its most recent event was a `start`; `total=False`: time since
+    the first `start` of the trailing run of `start`s; 0 for an uninitialised default label;
+    `KeyError` exactly for an explicitly named label that does not exist). -/
+theorem C15_timer_refines_stopwatch {L : Type} [DecidableEq L] (c : Cfg L) (h : List (Call L))
+    (now : Nat) (hm : Monotone h now) (label : Option L) (total : Bool) :
+    ((Timer.init c.init c.dflt c.all).run h).elapsed label total now =
+      specElapsed c h label total now := by
+  have R : Represents c h ((Timer.init c.init c.dflt c.all).run h) := by
+    simpa using represents_run [] h _ (represents_init c)
+  have hread : ∀ l, known c h l = true →
+      elapsedEntry (machFold (labelHistory c h l)) total now =
+        if total then specTotal (labelHistory c h l) now else specCurrent (labelHistory c h l) now := by
+    intro l _
+    apply elapsedEntry_machFold
+    · exact labelHistoryFrom_sorted c l [] h hm.1
+    · intro ev hev
+      obtain ⟨k, hk, ht⟩ := labelHistoryFrom_times c l [] h ev hev
+      rw [← ht]; exact hm.2 k hk
+  cases label with
+  | none =>
+    simp only [Timer.elapsed, Timer.elapsedDefault, specElapsed, Option.getD_none, R.dflt,
+      R.get c.dflt, Option.isNone_none, if_true]
+    cases hk : known c h c.dflt with
+    | true => simp [hread c.dflt hk]
+    | false => simp
+  | some l =>
+    simp only [Timer.elapsed, specElapsed, Option.getD_some, R.get l, Option.isNone_some]
+    cases hk : known c h l with
+    | true => simp [hread l hk]
+    | false => simp
+
+/-- **`KeyError` characterised.**  After any history, a call raises `KeyError` iff it is a
+    `stop`/`reset` whose argument is an explicit label or list (not the `all` label) naming a
+    label that was neither given to the constructor nor ever started.  `start` never raises. -/
+theorem C15_timer_keyerror {L : Type} [DecidableEq L] (c : Cfg L) (h : List (Call L)) (k : Call L) :
+    (((Timer.init c.init c.dflt c.all).run h).apply k).2 = false ↔
+      (k.op ≠ .start ∧ ∃ ls, c.explicitTargets k.arg = some ls ∧ ∃ l ∈ ls, known c h l = false) := by
+  have R : Represents c h ((Timer.init c.init c.dflt c.all).run h) := by
+    simpa using represents_run [] h _ (represents_init c)
+  rw [(represents_apply R k).2]
+  unfold raisesKey
+  cases hop : k.op with
+  | start => simp
+  | stop =>
+    cases ht : c.explicitTargets k.arg with
+    | none => simp
+    | some ls => simp
+  | reset =>
+    cases ht : c.explicitTargets k.arg with
+    | none => simp
+    | some ls => simp
+
+/-- **The set of labels** (`Timer.labels()`): a label is a key of the dictionary iff it was given
+    to the constructor or named in an earlier `start` call. -/
+theorem C15_timer_labels {L : Type} [DecidableEq L] (c : Cfg L) (h : List (Call L)) (l : L) :
+    l ∈ ((Timer.init c.init c.dflt c.all).run h).store.keys ↔ known c h l = true := by
+  have R : Represents c h ((Timer.init c.init c.dflt c.all).run h) := by
+    simpa using represents_run [] h _ (represents_init c)
+  rw [Store.mem_keys_iff, isSome_of_represents R l]
+
+-- non-vacuity: a history with a restart, a reset, a `KeyError` in the middle of a list, the `all`
+-- label and an unknown label; labels are numbers, default label 0, `all` label 9
+example :
+    let c : Cfg Nat := ⟨.one 1, 0, 9⟩
+    let h : List (Call Nat) :=
+      [⟨1, .start, .none⟩, ⟨3, .start, .many [1, 2]⟩, ⟨4, .stop, .many [1, 7, 2]⟩, ⟨6, .start, .one 1⟩,
+       ⟨8, .stop, .one 9⟩, ⟨8, .reset, .one 2⟩, ⟨9, .start, .one 2⟩]
+    Monotone h 12 ∧
+      specElapsed c h none true 12 = some 7 ∧ specElapsed c h (some 1) true 12 = some 3 ∧
+      specElapsed c h (some 2) true 12 = some 3 ∧ specElapsed c h (some 2) false 12 = some 3 ∧
+      specElapsed c h (some 7) true 12 = none ∧
+      ((Timer.init c.init c.dflt c.all).run h).elapsed (some 1) true 12 = some 3 := by
+  refine ⟨⟨by decide, by decide⟩, by decide, by decide, by decide, by decide, by decide, by decide⟩
 
 end Scico.Props.C15
